@@ -48,8 +48,7 @@ class TaskGenerator:
         self.stopped = False
 
         # Filter nodes and partition into subsets of size ``gran``.
-        filter_func = getattr(mutator, 'filter', lambda x: True)
-        filtered = list(nodes.filter_nodes(exprs, filter_func, max_depth))
+        filtered = list(nodes.filter_nodes(exprs, self.__filter, max_depth))
         self.num_filtered = len(filtered)
         self.gran = len(filtered) if gran is None else gran
         self.subsets = _partition(filtered, self.gran) if self.gran else []
@@ -59,6 +58,17 @@ class TaskGenerator:
             self.pickled_exprs = pickle.dumps(exprs)
         else:
             self.pickled_exprs = None
+
+    def __filter(self, node):
+        """Apply the filter of ``self.mutator``, a failing filter rejects the
+        node."""
+        try:
+            if hasattr(self.mutator, 'filter'):
+                return self.mutator.filter(node)
+            return True
+        except Exception as e:
+            logging.info(f'{type(e)} in filter of {self.mutator}: {e}')
+            return False
 
     def __iter__(self):
         return self
@@ -72,11 +82,17 @@ class TaskGenerator:
             # Filter nodes in subset in order to ensure that the mutator still
             # applies after updating ``self.exprs`` via ``self.update``.
             subset = self.subsets[task_id]
-            subset = [n for n in subset if self.mutator.filter(n)]
+            subset = [n for n in subset if self.__filter(n)]
             if not subset:
                 continue
 
-            simps = self.__get_substs(subset)
+            try:
+                simps = self.__get_substs(subset)
+            except Exception as e:
+                # a failing mutator only costs its own candidates
+                logging.info(
+                    f'{type(e)} in application of {self.mutator}: {e}')
+                continue
 
             if not simps:
                 continue
